@@ -259,12 +259,7 @@ def c08_winning_router_eligible(ctx, v):
                 if o.kind in ("unsupported", "unwound", "path-limit"):
                     return v.undecided("K=%d: %s %s" % (K, o.kind, o.info))
                 if o.kind == "panic":
-                    r, m = ex.model_for(o.pc)
-                    v.queries += 1
-                    if r == z3.sat:
-                        v.fail("K=%d hops, %d inputs: get_winning_routing_node panics: %s" % (K, nin, o.info), dict(total_fees=m.eval(fees.bv, model_completion=True).as_long(), remainder=m.eval(w.bv, model_completion=True).as_long()))
-                    elif r != z3.unsat:
-                        return v.undecided("K=%d: no verdict on a panic path" % K)
+                    L.report_panic(v, ex, o, "K=%d hops, %d inputs: get_winning_routing_node panics: %s" % (K, nin, o.info))
                     continue
                 if o.kind != "return":
                     continue
